@@ -186,7 +186,7 @@ fn ref_decode(ext: &str, bytes: &[u8], src: &Buffer) -> Result<Vec<Vec<(u8, (u8,
             let (mut fg, mut bg) = ((0u8, 0u8, 0u8), (0u8, 0u8, 0u8));
             let mut rows: Vec<Vec<(u8, (u8, u8, u8), (u8, u8, u8))>> = Vec::new();
             let (mut x, mut y) = (0usize, 0usize);
-            let mut put = |rows: &mut Vec<Vec<_>>, x: &mut usize, y: &mut usize, ch: u8, fg, bg| {
+            let put = |rows: &mut Vec<Vec<_>>, x: &mut usize, y: &mut usize, ch: u8, fg, bg| {
                 while rows.len() <= *y {
                     rows.push(vec![(0u8, (0, 0, 0), (0, 0, 0)); w]);
                 }
@@ -367,13 +367,13 @@ fn gen_doc(rng: &mut Rng, ext: &str) -> (DocD, bool) {
         d.palette_mode = if two_fonts { 2 } else { 3 };
         if rng.chance(1, 2) || two_fonts {
             let fh = if rng.bool() { 16 } else { 1 + rng.usize(32) as u8 };
-            d.fonts.push(FontD { slot: 0, name: "custom".into(), height: fh, builtin: None, data: rng.bytes(256 * fh as usize) });
+            d.fonts.push(FontD { slot: 0, name: "custom".into(), height: fh, builtin: None, data: rng.bytes(256 * fh as usize), sauce_name: None });
             if two_fonts {
-                d.fonts.push(FontD { slot: 1, name: "custom2".into(), height: fh, builtin: None, data: rng.bytes(256 * fh as usize) });
+                d.fonts.push(FontD { slot: 1, name: "custom2".into(), height: fh, builtin: None, data: rng.bytes(256 * fh as usize), sauce_name: None });
             }
         }
     } else if matches!(ext, "adf" | "idf") && rng.chance(1, 3) {
-        d.fonts.push(FontD { slot: 0, name: "custom".into(), height: 16, builtin: None, data: rng.bytes(4096) });
+        d.fonts.push(FontD { slot: 0, name: "custom".into(), height: 16, builtin: None, data: rng.bytes(4096), sauce_name: None });
     }
     if matches!(ext, "xb" | "adf" | "idf") && rng.bool() {
         // 16 six-bit colours
